@@ -39,21 +39,33 @@ from odc.geo.gridspec import GridSpec  # noqa: E402
 # ---------------------------------------------------------------------------------------------
 D_SHAPES = ((4, 4), (2, 8), (5, 3))  # (ny, nx)
 D_RES = ((0.5, -0.5), (0.5, 0.5), (-0.5, -0.5), (-2.0, 4.0), (8.0, -8.0))  # (rx, ry)
-D_ORG = (None, (0.0, 0.0), (-16.0, 32.0), (3.5, -1.25))
+# origins: default, explicit zero, whole tiles away, fraction of a pixel away (3.5/-1.25), half a 0.5-pixel off whole
+# numbers, an explicit zero component (falsy), within 2^-10 of whole numbers; thorough: both negative, huge
+D_ORG = (None, (0.0, 0.0), (-16.0, 32.0), (3.5, -1.25), (16.25, -7.75), (0.0, 2.5), (5 + 2.0 ** -10, -3 - 2.0 ** -10))
+D_ORG_T = D_ORG + ((-0.75, -100.5), (1000000.5, -2000000.25))
 D_SHAPES_T = D_SHAPES + ((1, 1), (3, 16))
 D_RES_T = D_RES + ((0.125, -0.25), (-4.0, -1.0))
 R_RES = ((30.0, -30.0), (0.1, -0.1))
-R_RES_T = R_RES + ((-30.0, 30.0), (1 / 3, -1 / 3), (-0.1, -0.1))
+R_RES_T = R_RES + ((-30.0, 30.0), (1 / 3, -1 / 3), (-0.1, -0.1), (20.0, -40.0))
 R_ORG = (None, (-16.0, 32.0), (3.5, -1.25), (500000.0, 6000000.0), (1 / 3, 0.1))
 FLIPS = ((False, False), (True, False), (False, True), (True, True))
 WIN = tuple(range(-3, 4))
-FAR = ((-1000, 999), (4097, -4096))
+FAR = ((-1000, 999), (4097, -4096), (1000003, -999999), (-2 ** 31 - 5, 2 ** 31 + 7))
+# extreme grids (R): tiny / huge pixels, non-square tiny pixels, 4000-px tiles (1e5 m), long portrait non-square
+E_GRIDS = (
+    ("EPSG:4326", (4, 4), (4.5e-6, -4.5e-6), (15.0, 54.0)),
+    ("EPSG:4326", (3, 5), (-4.5e-6, 9e-6), (-70.3, -33.2)),
+    ("EPSG:3577", (4000, 4000), (25.0, -25.0), None),
+    ("EPSG:3857", (2, 2), (1e5, -1e5), (-2e7, 2e7)),
+    ("EPSG:32633", (2000, 3), (20.0, -40.0), (499980.0, 6000040.0)),
+)
 
 
 def d_specs(tier, small=False):
     shapes = D_SHAPES_T if tier == "thorough" else D_SHAPES
     ress = D_RES_T if tier == "thorough" else D_RES
-    orgs = (None, (3.5, -1.25)) if (small and tier != "thorough") else D_ORG
+    orgs = (None, (3.5, -1.25), (16.25, -7.75)) if (small and tier != "thorough") else \
+        (D_ORG_T if tier == "thorough" else D_ORG)
     for shp in shapes:
         for res in ress:
             for org in orgs:
@@ -71,15 +83,23 @@ def r_specs(tier):
                     yield ("R", crs, shp, res, org, fx, fy)
 
 
+def e_specs(tier):
+    for crs, shp, res, org in E_GRIDS:
+        for fx, fy in FLIPS:
+            yield ("R", crs, shp, res, org, fx, fy)
+
+
 def all_specs(tier):
     yield from d_specs(tier)
     yield from r_specs(tier)
+    yield from e_specs(tier)
 
 
 # ---------------------------------------------------------------------------------------------
 # reference model (exact rationals) and observation helpers
 # ---------------------------------------------------------------------------------------------
 E9 = Fr(1e-9)
+EPS = Fr(2) ** -52
 
 
 class Model:
@@ -116,9 +136,12 @@ class Model:
                 for ky in range(int(ky0), int(ky1) + 1)]
 
     def tol(self, v, axis):
+        """R tolerance: 16 ulp of the coordinate magnitudes entering the computation (the value and the origin it
+        is offset from) + 1e-9 pixel. Never a fraction of the coordinate that could reach a pixel."""
         if self.exact:
             return 0
-        return E9 * (abs(v) + (self.px if axis == 0 else self.py))
+        o, p = (self.ox, self.px) if axis == 0 else (self.oy, self.py)
+        return 16 * EPS * (abs(v) + abs(o)) + E9 * p
 
     def tolmax(self, vals, axis):
         if self.exact:
@@ -295,6 +318,33 @@ def run_tiling(case):
         elif cls in ("centre", "pixel-centre") and (jx, jy) != T:
             r.fail(f"pt2idx:interior-point-other-tile:{cls}:{k}",
                    f"{what}: interior point ({fxp},{fyp}) of footprint {fmt(F)} looked up as {(jx, jy)}")
+    # points next to the edges: +-1 ulp and +-0.9e-8 / +-1.1e-8 (both sides of the query tolerance, which point
+    # lookup must NOT apply). These are not dyadic: containment is judged with 4 ulp of the coordinate scale.
+    fcx, fcy = float(cx), float(cy)
+    for ax, ename, e, other in (("x", "x0", x0, fcy), ("x", "x1", x1, fcy), ("y", "y0", y0, fcx), ("y", "y1", y1, fcx)):
+        fe = float(e)
+        o = m.ox if ax == "x" else m.oy
+        sz = m.W if ax == "x" else m.H
+        slack = max(tx if ax == "x" else ty, 4 * EPS * (abs(e) + abs(o) + sz))
+        # one unit in the last place at the scale of the grid (next to an edge at 0.0 nextafter would be a
+        # denormal, whose quotient underflows - not a coordinate anyone has)
+        u = max(math.ulp(fe), math.ulp(float(sz)))
+        for dname, pv in (("ulp", fe + u), ("ulp", fe - u),
+                          ("0.9tol", fe + 0.9e-8), ("0.9tol", fe - 0.9e-8), ("1.1tol", fe + 1.1e-8), ("1.1tol", fe - 1.1e-8)):
+            P = (pv, other) if ax == "x" else (other, pv)
+            jx, jy = gs.pt2idx(*P).xy
+            FJ = F if (jx, jy) == T else fp_obs(spec, gs, (jx, jy))
+            if FJ is None:
+                continue
+            lo, hi = (FJ[0], FJ[2]) if ax == "x" else (FJ[1], FJ[3])
+            side = "inside" if (pv > fe) == (ename[1] == "0") else "outside"
+            if not lo - slack <= Fr(pv) <= hi + slack:
+                r.fail(f"pt2idx:point-outside-returned-tile:edge{'+-' + dname}:{ax}:{k}",
+                       f"{what}: pt2idx{P} ({dname} {side} edge {ename}={fe!r}) -> {(jx, jy)} whose footprint {fmt(FJ)} "
+                       f"does not contain the point")
+            elif (jx, jy)[ax == "y"] != T[ax == "y"] and side == "inside" and abs(Fr(pv) - e) > slack and not far:
+                r.fail(f"pt2idx:interior-point-other-tile:edge+-{dname}:{ax}:{k}",
+                       f"{what}: pt2idx{P} is {dname} inside edge {ename}={fe!r} of {fmt(F)} but looked up as {(jx, jy)}")
     r.outcome += ":" + conv
     return r
 
@@ -349,8 +399,9 @@ def run_rebuild(case):
                 r.fail(f"from_sample_tile:tile-shape:{k}", f"{what}: tile {J} shape {g2.shape}")
                 break
             # R tolerance relative to the largest coordinate involved: the sample tile's edges are inputs too
-            tx = m.tolmax((F1[0], F1[2], FS[0], FS[2]), 0)
-            ty = m.tolmax((F1[1], F1[3], FS[1], FS[3]), 1)
+            # (the tile size is measured from the sample and extrapolated over the index distance)
+            tx = m.tolmax((F1[0], F1[2], FS[0], FS[2]), 0) * (1 + abs(J[0] - ix))
+            ty = m.tolmax((F1[1], F1[3], FS[1], FS[3]), 1) * (1 + abs(J[1] - iy))
             bad = [n for n, a, b, t in zip("xyxy", F1, F2, (tx, ty, tx, ty)) if abs(a - b) > t]
             if bad:
                 r.fail(f"from_sample_tile:footprint-differs:{bad[0]}:{k}:{scls}",
@@ -363,9 +414,14 @@ def run_rebuild(case):
 # ---------------------------------------------------------------------------------------------
 # slice 3: bounding-box queries (native CRS): tiles() and idx_bounds()
 # ---------------------------------------------------------------------------------------------
-OFFS = ("0", "+t", "-t", "+c", "-c", "+q", "-q")
+# offsets from a lattice line: exact, +-1e-9, +-1e-6, +-quarter tile and both sides of the 1e-8 window
+# (f x 1e-8, f in 0.9, 0.999, 1.001, 1.1)
+OFFS = ("0", "+t", "-t", "+c", "-c", "+q", "-q", "+f0.9", "-f0.9", "+f0.999", "-f0.999", "+f1.001", "-f1.001",
+        "+f1.1", "-f1.1")
 REQ = Fr(5e-7)  # constructed clear overlaps / gaps are >= 1e-6 (minus float rounding of the edge)
 THIN = Fr(1e-7)
+TOLQ = Fr(1e-8)  # the property's edge-contact exclusion (absolute, CRS units)
+TOLQ_LO, TOLQ_HI = TOLQ * Fr(9995, 10000), TOLQ * Fr(10005, 10000)
 
 
 def _axis_full():
@@ -373,6 +429,7 @@ def _axis_full():
     iv += [(0, e, 2, "-q") for e in OFFS]
     iv += [(-1, "+q", 1, e) for e in OFFS]
     iv += [(0, "+t", 1, "-t"), (0, "-t", 1, "+t"), (0, "-c", 1, "+c"), (0, "+c", 1, "-c")]
+    iv += [(0, "-f0.999", 1, "+f0.999"), (0, "-f1.001", 1, "+f1.001")]
     iv += [(0, "-c", 0, "+c"), (0, "+q", 0, "+q"), (0, "0", 0, "0"), (0, "-t", 0, "+t")]
     iv += [(-3, "+q", 3, "-q")]
     out = []
@@ -402,6 +459,8 @@ def gen_bbox(tier):
 
 
 def _off(code, quarter):
+    if code[1:2] == "f":
+        return float(code[0] + "1") * float(code[2:]) * 1e-8
     return {"0": 0.0, "+t": 1e-9, "-t": -1e-9, "+c": 1e-6, "-c": -1e-6, "+q": quarter, "-q": -quarter}[code]
 
 
@@ -419,12 +478,12 @@ def rect_depth(q, F):
 def classify_bbox(m, q, F, thin, tau):
     """'req' | 'forbid:<why>' | 'open'"""
     p = rect_depth(q, F)
-    if p >= REQ + tau:
+    if p >= TOLQ_HI + tau:
         return "req"
     if p <= -(REQ + tau):
         return "forbid:disjoint"
-    if not thin and p <= -tau:
-        return "forbid:touching" if p == 0 else "forbid:near-gap"
+    if not thin and p <= TOLQ_LO - tau:
+        return "forbid:touching" if p == 0 else ("forbid:near-gap" if p < 0 else "forbid:contact-within-1e-8")
     return "open"
 
 
@@ -485,7 +544,27 @@ def run_bbox(case):
         r2 = R()
         judge_tiles(r2, m, q, ibset, cand, cl, "idx_bounds", k, what.replace(".tiles(", ".idx_bounds(") + f" -> {ib}")
         r.fails.extend(r2.fails)
-    contact = any(c in ("0", "+t", "-t") for c in (qx[1], qx[3], qy[1], qy[3]))
+    # other entry points with the same arguments, judged by the same oracle
+    if not thin:
+        cache = {}
+        ret2 = [tuple(i) for i, _ in gs.tiles_from_geopolygon(geom.box(lox, loy, hix, hiy, crs), geobox_cache=cache)]
+        if sorted(ret2) != sorted(returned):
+            r2 = R()
+            judge_tiles(r2, m, q, ret2, cand, cl, "tiles_from_geopolygon:box", k,
+                        what.replace(".tiles(BoundingBox", ".tiles_from_geopolygon(geom.box"))
+            r.fails.extend(r2.fails)
+        ret3 = [tuple(i) for i, _ in gs.tiles(bounds, geobox_cache=cache)]
+        if ret3 != returned:
+            r.fail(f"tiles:geobox_cache-changes-result:{k}", f"{what}: {returned} without, {ret3} with a geobox_cache")
+        if alph == "D" and qy in AX_SMALL[:2]:
+            for kw in ("bbox", "geopolygon"):
+                gj = gs.geojson(**{kw: bounds if kw == "bbox" else geom.box(lox, loy, hix, hiy, crs)})
+                ret4 = [tuple(int(v) for v in f["properties"]["idx"].split(",")) for f in gj["features"]]
+                if sorted(ret4) != sorted(returned):
+                    r2 = R()
+                    judge_tiles(r2, m, q, ret4, cand, cl, f"geojson:{kw}", k, what.replace(".tiles(", f".geojson({kw}="))
+                    r.fails.extend(r2.fails)
+    contact = any(c in ("0", "+t", "-t") or c[1:2] == "f" for c in (qx[1], qx[3], qy[1], qy[3]))
     r.outcome = f"{alph}:n{min(len(returned), 9)}:{'thin' if thin else ('contact' if contact else 'clear')}:open{min(nopen, 3)}"
     r.nontrivial = nreq > 0 or thin
     return r
@@ -663,8 +742,209 @@ def run_poly(case):
 
 
 # ---------------------------------------------------------------------------------------------
+# slice 4b: every geometry type as query (grid CRS, alphabet D); oracle = shapely on raw shapes
+# ---------------------------------------------------------------------------------------------
+MG = 2.0 ** -12  # margin of the generic oracle; constructed features are >= 2^-10 (mostly a quarter tile) clear
+_RECT = [(0.25, 0.25), (2.75, 0.25), (2.75, 2.75), (0.25, 2.75)]
+# name -> (kind, parts in cell units [, world offset added to every x])
+GEOMS = {
+    "point-inside": ("point", [(0.5, 0.5)]),
+    "point-on-edge": ("point", [(1, 0.5)]),
+    "point-on-corner": ("point", [(1, 1)]),
+    "point-near-edge": ("point", [(1, 0.5)], 2.0 ** -10),
+    "multipoint": ("multipoint", [(0.5, 0.5), (3.5, 2.5)]),
+    "multipoint-single": ("multipoint", [(1.5, 0.25)]),
+    "multipoint-repeated": ("multipoint", [(0.5, 0.5), (0.5, 0.5), (-1.5, 0.5)]),
+    "line-mid": ("line", [(0.25, 0.5), (3.75, 0.5)]),
+    "line-diag-through-corners": ("line", [(0, 0), (3, 3)]),
+    "line-diag": ("line", [(0.25, 0), (3.25, 3)]),
+    "line-along-edge": ("line", [(0.25, 1), (2.75, 1)]),
+    "line-vertical-long": ("line", [(0.5, -2.5), (0.5, 3.5)]),
+    "line-near-edge": ("line", [(1, -0.75), (1, 1.75)], 2.0 ** -10),
+    "multiline": ("multiline", [[(0.25, 0.5), (0.75, 0.5)], [(3.25, 2.5), (3.75, 2.5)]]),
+    "multiline-single": ("multiline", [[(0.25, 0.5), (1.75, 0.5)]]),
+    "ring-exterior": ("ring", _RECT),
+    "ring-interior": ("ring-hole", [(0.25, 0.25), (0.75, 0.25), (0.75, 0.75), (0.25, 0.75)]),
+    "multipolygon-single": ("multipolygon", [[(0.25, 0.25), (0.75, 0.25), (0.75, 1.75), (0.25, 1.75)]]),
+    "multipolygon-row-gap": ("multipolygon", [[(-1.75, 0.25), (-1.25, 0.25), (-1.25, 0.75), (-1.75, 0.75)],
+                                              [(2.25, 0.25), (2.75, 0.25), (2.75, 0.75), (2.25, 0.75)]]),
+    "multipolygon-column-gap": ("multipolygon", [[(0.25, -2.75), (0.75, -2.75), (0.75, -2.25), (0.25, -2.25)],
+                                                 [(0.25, 0.25), (0.75, 0.25), (0.75, 0.75), (0.25, 0.75)],
+                                                 [(0.25, 3.25), (0.75, 3.25), (0.75, 3.75), (0.25, 3.75)]]),
+    "polygon-repeated-vertices": ("polygon-repeated", _RECT),
+    "collection": ("collection", [[(0.5, 0.5)], [(2.25, 2.25), (2.75, 2.75)],
+                                  [(4.25, 0.25), (4.75, 0.25), (4.75, 0.75), (4.25, 0.75)]]),
+    "collection-single": ("collection1", [(0.25, 0.25), (1.75, 0.25), (1.75, 0.75), (0.25, 0.75)]),
+    "empty-polygon": ("empty", "Polygon"),
+    "empty-multipolygon": ("empty", "MultiPolygon"),
+    "empty-collection": ("empty", "GeometryCollection"),
+    "empty-point": ("empty", "Point"),
+    "empty-linestring": ("empty", "LineString"),
+    "empty-polygon-other-crs": ("empty-4326", "Polygon"),
+    "no-crs-polygon": ("nocrs", _RECT),
+    "no-crs-empty": ("nocrs-empty", "Polygon"),
+}
+
+
+def gen_geomtypes(tier):
+    def gen():
+        for spec in d_specs(tier, small=True):
+            for name in GEOMS:
+                for base in BASES:
+                    yield (spec, name, base)
+
+    return gen
+
+
+def make_query(kind, pts, crs):
+    """-> (odc Geometry built through the public constructors, independent shapely shape, filled shape)"""
+    cl = lambda rg: list(rg) + [rg[0]]  # noqa: E731
+    if kind == "point":
+        return geom.point(*pts[0], crs), sg.Point(pts[0]), None
+    if kind == "multipoint":
+        return geom.multipoint(list(pts), crs), sg.MultiPoint(pts), None
+    if kind == "line":
+        return geom.line(list(pts), crs), sg.LineString(pts), None
+    if kind == "multiline":
+        return geom.multiline([list(p) for p in pts], crs), sg.MultiLineString(pts), None
+    if kind == "ring":
+        return geom.polygon(cl(pts), crs).exterior, sg.LineString(cl(pts)), sg.Polygon(pts)
+    if kind == "ring-hole":
+        outer = [(min(x for x, _ in pts) - 1e3, min(y for _, y in pts) - 1e3), (max(x for x, _ in pts) + 1e3, min(y for _, y in pts) - 1e3),
+                 (max(x for x, _ in pts) + 1e3, max(y for _, y in pts) + 1e3), (min(x for x, _ in pts) - 1e3, max(y for _, y in pts) + 1e3)]
+        return geom.polygon(cl(outer), crs, cl(pts)).interiors[0], sg.LineString(cl(pts)), sg.Polygon(pts)
+    if kind == "multipolygon":
+        return geom.multipolygon([[cl(p)] for p in pts], crs), sg.MultiPolygon([sg.Polygon(p) for p in pts]), None
+    if kind == "polygon-repeated":
+        rep = [pts[0], pts[0], pts[1], pts[1], pts[1], pts[2], pts[3], pts[3]]
+        return geom.polygon(cl(rep), crs), sg.Polygon(pts), None
+    if kind == "collection":
+        members = [sg.Point(pts[0][0]), sg.LineString(pts[1]), sg.Polygon(pts[2])]
+        return geom.Geometry(sg.GeometryCollection(members), crs), sg.GeometryCollection(
+            [sg.Point(pts[0][0]), sg.LineString(pts[1]), sg.Polygon(pts[2])]), None
+    if kind == "collection1":
+        return geom.Geometry(sg.GeometryCollection([sg.Polygon(pts)]), crs), sg.Polygon(pts), None
+    raise ValueError(kind)
+
+
+def areal_part(G):
+    if G.geom_type in ("Polygon", "MultiPolygon"):
+        return G
+    if G.geom_type == "GeometryCollection":
+        polys = [g for g in G.geoms if g.geom_type in ("Polygon", "MultiPolygon")]
+        return sg.MultiPolygon([p for g in polys for p in (g.geoms if g.geom_type == "MultiPolygon" else [g])]) if polys else None
+    return None
+
+
+def generic_classifier(G, filled, margin):
+    """tile -> 'req' when the query has a point clearly inside the tile (for areal parts: clearly inside both),
+    'forbid:disjoint' when the whole query (a ring counted with the area it encloses) is clearly away, else 'open'."""
+    A = areal_part(G)
+    core = G if A is None else A.buffer(-margin)
+    if A is not None and G.geom_type == "GeometryCollection":
+        rest = [g for g in G.geoms if g.geom_type not in ("Polygon", "MultiPolygon")]
+        core = sg.GeometryCollection([core] + rest)
+    hull = G if filled is None else filled
+
+    def classify(F):
+        x0, y0, x1, y1 = (float(v) for v in F)
+        if x1 - x0 > 2 * margin and y1 - y0 > 2 * margin and core.intersects(sg.box(x0 + margin, y0 + margin, x1 - margin, y1 - margin)):
+            return "req"
+        if hull.distance(sg.box(x0, y0, x1, y1)) >= margin:
+            return "forbid:disjoint"
+        return "open"
+
+    return classify
+
+
+def run_geomtypes(case):
+    spec, name, base = case
+    gs, m = grid(spec)
+    k = gk(spec)
+    crs = spec[1]
+    ent = GEOMS[name]
+    kind, parts = ent[0], ent[1]
+    xoff = ent[2] if len(ent) > 2 else 0.0
+    r = R(outcome=f"{name}")
+    what = f"GridSpec{spec[1:]}.tiles_from_geopolygon({name} at cell {base})"
+    if kind.startswith("empty") or kind.startswith("nocrs"):
+        if kind in ("empty", "empty-4326"):
+            g = geom.Geometry(getattr(sg, parts)(), crs if kind == "empty" else "EPSG:4326")
+            got = [tuple(i) for i, _ in gs.tiles_from_geopolygon(g)]  # an exception here is reported by the framework
+            if got:
+                r.fail(f"tiles_from_geopolygon:empty-query-returns-tiles:{parts}", f"{what}: empty {parts} -> {got}")
+            r.outcome += ":n0"
+            return r
+        # geometry without a CRS: the documented error of to_crs, or an answer (then judged as if native)
+        xy = lambda u, v: (float(m.ox + Fr(base[0] + u) * m.W), float(m.oy + Fr(base[1] + v) * m.H))  # noqa: E731
+        g = geom.Geometry(sg.Polygon() if kind == "nocrs-empty" else sg.Polygon([xy(*p) for p in parts]), None)
+        try:
+            got = [tuple(i) for i, _ in gs.tiles_from_geopolygon(g)]
+        except ValueError as e:
+            r.outcome += ":ValueError"
+            if "CRS" not in str(e).upper():
+                r.fail("tiles_from_geopolygon:no-crs:unexpected-error", f"{what}: ValueError: {e}")
+            return r
+        r.outcome += f":n{len(got)}"
+        if kind == "nocrs-empty" and got:
+            r.fail("tiles_from_geopolygon:empty-query-returns-tiles:no-crs", f"{what}: -> {got}")
+        return r
+
+    def xy(p):
+        return (float(m.ox + Fr(base[0] + p[0]) * m.W) + xoff, float(m.oy + Fr(base[1] + p[1]) * m.H))
+
+    pts = [[xy(q) for q in p] if isinstance(p, list) else xy(p) for p in parts]
+    g, G, filled = make_query(kind, pts, crs)
+    wkt0 = g.wkt
+    cache = {}
+    got = list(gs.tiles_from_geopolygon(g, geobox_cache=cache))
+    returned = [tuple(i) for i, _ in got]
+    if g.wkt != wkt0:
+        r.fail("tiles_from_geopolygon:query-geometry-modified", f"{what}: {wkt0} -> {g.wkt}")
+    for i, gb in got:
+        if gb != gs.tile_geobox(i):
+            r.fail("tiles_from_geopolygon:geobox-differs-from-tile_geobox", f"{what}: tile {i}")
+            break
+    bx0, by0, bx1, by1 = G.bounds
+    cand = m.cells((Fr(bx0), Fr(by0), Fr(bx1), Fr(by1)))
+    classify = generic_classifier(G, filled, MG)
+    nreq, nforb, nopen = judge_tiles(r, m, None, returned, cand, classify, f"tiles_from_geopolygon:{kind}", k,
+                                     f"{what}: {g.wkt[:200]}")
+    r.outcome += f":n{min(len(returned), 9)}:open{min(nopen, 3)}"
+    r.nontrivial = nreq > 0 or nforb > 0
+    return r
+
+
+# ---------------------------------------------------------------------------------------------
 # slice 5: polygon queries given in another CRS; oracle = fresh pyproj.Transformer + shapely
 # ---------------------------------------------------------------------------------------------
+# CRS spellings: codes, a CRS without an EPSG code, and a WKT whose central meridian was edited (15 -> 20) while
+# its trailing ID["EPSG",32633] was left in place (oracle: an independent PROJ string with the same parameters)
+NOEPSG = "+proj=laea +lat_0=52 +lon_0=11 +x_0=4321000 +y_0=3210000 +ellps=GRS80 +units=m +no_defs"
+STALE_ORACLE = "+proj=tmerc +lat_0=0 +lon_0=20 +k=0.9996 +x_0=500000 +y_0=0 +datum=WGS84 +units=m +no_defs"
+_STALE = []
+
+
+def stale_wkt():
+    if not _STALE:
+        w = pyproj.CRS.from_epsg(32633).to_wkt()
+        w2 = w.replace('"Longitude of natural origin",15', '"Longitude of natural origin",20')
+        assert w2 != w and 'ID["EPSG",32633]' in w2
+        _STALE.append(w2)
+    return _STALE[0]
+
+
+def crs_arg(name):
+    """case label -> (what is handed to odc-geo, what the oracle's pyproj uses)"""
+    if name == "NOEPSG":
+        return NOEPSG, NOEPSG
+    if name == "STALE":
+        return stale_wkt(), STALE_ORACLE
+    if name.startswith("WKT:"):
+        return pyproj.CRS.from_user_input(name[4:]).to_wkt(), name[4:]
+    return name, name
+
+
 # (grid crs, shape, res, origin, anchor point in grid coordinates, query crs)
 X_GRIDS = (
     ("EPSG:3857", (4, 4), (30.0, -30.0), None, (1669792.0, 7170156.0), "EPSG:4326"),
@@ -674,14 +954,28 @@ X_GRIDS = (
     ("EPSG:3577", (10, 10), (1000.0, -1000.0), None, (1200000.0, -2500000.0), "EPSG:4326"),
     ("EPSG:4326", (4, 4), (0.1, -0.1), (1 / 3, 0.1), (15.05, 54.03), "EPSG:3857"),
     ("EPSG:4326", (5, 3), (0.1, 0.1), None, (-70.3, -33.2), "EPSG:32719"),
+    ("NOEPSG", (4, 4), (30.0, -30.0), None, (4400000.0, 3300000.0), "EPSG:4326"),
+    ("STALE", (5, 3), (20.0, -40.0), (499980.0, 6000040.0), (532774.0, 5983637.0), "EPSG:4326"),
+    ("STALE", (4, 4), (30.0, -30.0), None, (532774.0, 5983637.0), "EPSG:32633"),
+    ("EPSG:3857", (4, 4), (30.0, -30.0), (15.0, -15.0), (1224514.0, 6800125.0), "NOEPSG"),
+    ("WKT:EPSG:3577", (2, 8), (25.0, -25.0), None, (1500000.0, -3900000.0), "WKT:EPSG:4326"),
 )
+# name -> (kind, parts in cell units relative to the anchor cell)
 X_SHAPES = {
-    "rect": [(0.25, 0.25), (1.75, 0.25), (1.75, 2.5), (0.25, 2.5)],
-    "rect-neg": [(-1.5, -0.5), (0.5, -0.5), (0.5, 0.5), (-1.5, 0.5)],
-    "tri": [(0.25, 0.25), (3.25, 0.25), (0.25, 3.25)],
-    "L": [(0.25, 0.25), (2.75, 0.25), (2.75, 0.75), (0.75, 0.75), (0.75, 2.75), (0.25, 2.75)],
-    "diamond": [(-1.25, 1.5), (1.5, -1.25), (4.25, 1.5), (1.5, 4.25)],
-    "native-box": None,  # axis-aligned box in the query CRS covering cells (0.25,0.25)-(2.75,1.75)
+    "rect": ("polygon", [(0.25, 0.25), (1.75, 0.25), (1.75, 2.5), (0.25, 2.5)]),
+    "rect-neg": ("polygon", [(-1.5, -0.5), (0.5, -0.5), (0.5, 0.5), (-1.5, 0.5)]),
+    "tri": ("polygon", [(0.25, 0.25), (3.25, 0.25), (0.25, 3.25)]),
+    "L": ("polygon", [(0.25, 0.25), (2.75, 0.25), (2.75, 0.75), (0.75, 0.75), (0.75, 2.75), (0.25, 2.75)]),
+    "diamond": ("polygon", [(-1.25, 1.5), (1.5, -1.25), (4.25, 1.5), (1.5, 4.25)]),
+    "native-box": ("native-box", None),  # axis-aligned box in the query CRS covering cells (0.25,0.25)-(2.75,1.75)
+    "islands-row": ("multipolygon", [[(-1.75, 0.25), (-1.25, 0.25), (-1.25, 0.75), (-1.75, 0.75)],
+                                     [(2.25, 0.25), (2.75, 0.25), (2.75, 0.75), (2.25, 0.75)]]),
+    "islands-column": ("multipolygon", [[(0.25, -1.75), (0.75, -1.75), (0.75, -1.25), (0.25, -1.25)],
+                                        [(0.25, 2.25), (0.75, 2.25), (0.75, 2.75), (0.25, 2.75)]]),
+    "point": ("point", [(0.5, 0.5)]),
+    "line": ("line", [(0.25, 0.5), (2.5, 1.5), (2.5, 3.5)]),
+    "collection": ("collection", [[(0.5, 0.5)], [(2.25, 2.25), (2.75, 2.75)],
+                                  [(4.25, 0.25), (4.75, 0.25), (4.75, 0.75), (4.25, 0.75)]]),
 }
 _TR = {}
 
@@ -700,72 +994,95 @@ def gen_xcrs(tier):
             for fx, fy in FLIPS:
                 for name in X_SHAPES:
                     for orient in ("ccw", "cw"):
+                        if orient == "cw" and X_SHAPES[name][0] not in ("polygon", "native-box"):
+                            continue
                         yield (gi, fx, fy, name, orient)
 
     return gen
 
 
+def _densify(path, tr, closed):
+    out = []
+    n = len(path)
+    for i in range(n if closed else n - 1):
+        (ax, ay), (bx, by) = path[i], path[(i + 1) % n]
+        for s in range(16):
+            t = s / 16
+            out.append(tr.transform(ax + (bx - ax) * t, ay + (by - ay) * t))
+    if not closed:
+        out.append(tr.transform(*path[-1]))
+    return out
+
+
 def run_xcrs(case):
     gi, fx, fy, name, orient = case
-    crs, shp, res, org, anchor, qcrs = X_GRIDS[gi]
+    crs_name, shp, res, org, anchor, qcrs_name = X_GRIDS[gi]
+    crs, crs_o = crs_arg(crs_name)
+    qcrs, qcrs_o = crs_arg(qcrs_name)
     spec = ("R", crs, shp, res, org, fx, fy)
     gs, m = grid(spec)
     k = gk(spec)
     kx0 = math.floor((Fr(anchor[0]) - m.ox) / m.W)
     ky0 = math.floor((Fr(anchor[1]) - m.oy) / m.H)
-    inv = transformer(crs, qcrs)
-    fwd = transformer(qcrs, crs)
+    inv = transformer(crs_o, qcrs_o)
+    fwd = transformer(qcrs_o, crs_o)
 
-    def cell_xy(u, v):
-        return (float(m.ox + (kx0 + Fr(u)) * m.W), float(m.oy + (ky0 + Fr(v)) * m.H))
+    def q_xy(p):
+        return inv.transform(float(m.ox + (kx0 + Fr(p[0])) * m.W), float(m.oy + (ky0 + Fr(p[1])) * m.H))
 
-    if name == "native-box":
-        cs = [inv.transform(*cell_xy(u, v)) for u, v in ((0.25, 0.25), (2.75, 0.25), (2.75, 1.75), (0.25, 1.75))]
+    kind, parts = X_SHAPES[name]
+    if kind == "native-box":
+        cs = [q_xy(p) for p in ((0.25, 0.25), (2.75, 0.25), (2.75, 1.75), (0.25, 1.75))]
         x0, x1 = min(c[0] for c in cs), max(c[0] for c in cs)
         y0, y1 = min(c[1] for c in cs), max(c[1] for c in cs)
         qring = [(x0, y0), (x1, y0), (x1, y1), (x0, y1)]
+        g = geom.box(x0, y0, x1, y1, qcrs) if orient == "ccw" else geom.polygon(qring[::-1] + qring[-1:], qcrs)
+        members = [("polygon", qring)]
+    elif kind == "polygon":
+        qring = [q_xy(p) for p in parts]
+        if orient == "cw":
+            qring = qring[::-1]
+        g = geom.polygon(qring + qring[:1], qcrs)
+        members = [("polygon", qring)]
     else:
-        qring = [inv.transform(*cell_xy(u, v)) for u, v in X_SHAPES[name]]
-    if orient == "cw":
-        qring = qring[::-1]
-    g = geom.box(qring[0][0], qring[0][1], qring[2][0], qring[2][1], qcrs) if (name == "native-box" and orient == "ccw") \
-        else geom.polygon(qring + qring[:1], qcrs)
-    what = f"GridSpec{spec[1:]}.tiles_from_geopolygon({name} {orient} in {qcrs}: {qring})"
+        pts = [[q_xy(q) for q in p] if isinstance(p, list) else q_xy(p) for p in parts]
+        g, _G, _f = make_query(kind, pts, qcrs)
+        if kind == "multipolygon":
+            members = [("polygon", p) for p in pts]
+        elif kind == "collection":
+            members = [("point", [pts[0][0]]), ("line", pts[1]), ("polygon", pts[2])]
+        else:
+            members = [(kind, pts)]
+    what = f"GridSpec({crs_name}, {spec[2:]}).tiles_from_geopolygon({name} {orient} in {qcrs_name}: {g.wkt[:300]})"
     r = R()
     returned = [tuple(i) for i, _ in gs.tiles_from_geopolygon(g)]
     # oracle: densified image of the query (true shape) vs image of its vertices (what a vertex-wise
     # transformation sees); tiles within the margin of the boundary are left open
     dense, chord = [], []
-    n = len(qring)
-    for i in range(n):
-        (ax, ay), (bx, by) = qring[i], qring[(i + 1) % n]
-        chord.append(fwd.transform(ax, ay))
-        for s in range(16):
-            t = s / 16
-            dense.append(fwd.transform(ax + (bx - ax) * t, ay + (by - ay) * t))
-    Pd, Pc = sg.Polygon(dense), sg.Polygon(chord)
-    assert Pd.is_valid and Pc.is_valid, case
-    dev = Pd.hausdorff_distance(Pc)
+    for mk, path in members:
+        if mk == "point":
+            dense.append(sg.Point(fwd.transform(*path[0])))
+            chord.append(dense[-1])
+        elif mk == "line":
+            dense.append(sg.LineString(_densify(path, fwd, False)))
+            chord.append(sg.LineString([fwd.transform(*q) for q in path]))
+        else:
+            dense.append(sg.Polygon(_densify(path, fwd, True)))
+            chord.append(sg.Polygon([fwd.transform(*q) for q in path]))
+    assert all(d.is_valid for d in dense + chord), case
+    dev = max(d.hausdorff_distance(c) for d, c in zip(dense, chord))
+    Gd = dense[0] if len(dense) == 1 else sg.GeometryCollection(dense)
     pixel = float(max(m.px, m.py))
-    maxabs = max(abs(v) for p in dense for v in p)
+    bx0, by0, bx1, by1 = Gd.bounds
+    maxabs = max(abs(v) for v in (bx0, by0, bx1, by1))
     margin = 2 * dev + 1e-2 * pixel + 4e-9 * maxabs
-    Pin, Pout = Pd.buffer(-margin), Pd.buffer(margin)
-
-    def classify(F):
-        x0, y0, x1, y1 = (float(v) for v in F)
-        if Pin.intersects(sg.box(x0 + margin, y0 + margin, x1 - margin, y1 - margin)):
-            return "req"
-        if not Pout.intersects(sg.box(x0, y0, x1, y1)):
-            return "forbid:disjoint"
-        return "open"
-
-    bx0, by0, bx1, by1 = Pd.bounds
+    classify = generic_classifier(Gd, None, margin)
     qb = (Fr(bx0), Fr(by0), Fr(bx1), Fr(by1))
     cand = m.cells(qb, pad=2)
-    nreq, nforb, nopen = judge_tiles(r, m, None, returned, cand, classify, "tiles_from_geopolygon:other-crs",
-                                     f"{crs}<-{qcrs}:{k}", what)
+    nreq, nforb, nopen = judge_tiles(r, m, None, returned, cand, classify, f"tiles_from_geopolygon:other-crs:{kind}",
+                                     f"{crs_name}<-{qcrs_name}:{k}", what)
     inbox = sum(1 for idx in cand if rect_depth(qb, m.fp(*idx)) >= Fr(margin) and classify(m.fp(*idx)) == "forbid:disjoint")
-    r.outcome = f"x:{crs}:{name}:n{min(len(returned), 12)}:open{min(nopen, 3)}:filtered{min(inbox, 3)}"
+    r.outcome = f"x:{crs_name}<-{qcrs_name}:{name}:n{min(len(returned), 12)}:open{min(nopen, 3)}:filtered{min(inbox, 3)}"
     r.nontrivial = nreq > 0
     return r
 
@@ -816,7 +1133,8 @@ def run_web(case):
     def near(a, b):
         # R tolerance; the magnitude is that of the coordinates the grid is built from (the map corner
         # +-pi*R), not of the result, which cancels to ~0 for tiles at the map centre
-        return abs(a - b) <= 1e-9 * (max(abs(b), half) + pixel)
+        # ulp based: tile edges are extrapolated over up to n tile sizes measured at the map corner
+        return abs(a - b) <= 2.0 ** -52 * half * (4 + 2 * n) + 1e-9 * pixel
 
     if kind == "tile":
         gb = gs[tx, ty]
@@ -881,6 +1199,9 @@ def slices(tier):
         e1.Slice("query-poly", gen_poly(tier), run_poly,
                  "D grid specs x 30 polygon shapes (rect, triangles, diamonds, L, frame with hole, multipolygon; offsets "
                  "0, +-1e-9, +-2^-10) x 2 base cells x 2 ring orientations; exact separating-axis oracle"),
+        e1.Slice("query-geomtypes", gen_geomtypes(tier), run_geomtypes,
+                 "D grid specs x 31 query geometries of every type (points, lines, rings, multi-part incl. single-part, "
+                 "collections, repeated vertices, empty, CRS-less) x 2 base cells; oracle shapely on raw shapes"),
         e1.Slice("query-other-crs", gen_xcrs(tier), run_xcrs,
                  "7 grids (3857, UTM, Albers, 4326) x flips x 6 shapes given in another CRS; oracle pyproj+shapely with "
                  "margin = 2x chord deviation", shards=16),
